@@ -7,7 +7,8 @@
    Phrase strings are UTF-8 byte lists (utf8_valid = Rust's String invariant). *)
 From Coq Require Import NArith List Bool Permutation.
 From LC Require Import Base.Lib Model.Utf8 Model.Der Model.Syllable Model.TrieCodec
-     Proofs.DerProofs Proofs.TrieFileProofs Proofs.TrieShape Proofs.TrieValidate Proofs.TrieTotal Proofs.TrieWitness.
+     Proofs.DerProofs Proofs.TrieFileProofs Proofs.TrieShape Proofs.TrieValidate Proofs.TrieTotal Proofs.TrieWitness
+     Proofs.TrieLayout Proofs.TrieRoundtrip.
 Import ListNotations.
 Open Scope N_scope.
 
@@ -85,3 +86,123 @@ Print Assumptions C11_file_roundtrip.
 Theorem C11_records_roundtrip : forall rs, Forall rec_ok rs -> parse_recs (enc_recs rs) = rs.
 Proof. exact parse_enc_recs. Qed.
 Print Assumptions C11_records_roundtrip.
+
+(* ------------------------------------------------------------------ *)
+(* write, then read                                                      *)
+
+(* Capacities of the format, stated on the builder's tree (Proofs/TrieLayout.v):
+   tok t = every leaf is non-empty, holds valid phrases and its sorted DER
+   encoding is shorter than 2^16 bytes (Data Len is a u16); every node has at
+   least one and fewer than 2^16 children incl. its leaf (Child Len is a u16);
+   child syllables are non-zero u16 values.  root_ok t = tempty \/ tok t.
+   Node count < 2^32 and DER length < 2^28 need no hypothesis: `write` returns
+   Err beyond them (Document::try_from), so write = Ok implies them. *)
+
+(* The BFS layout: the index written for the queue denotes, record by record,
+   a shape that mirrors the builder's nodes; leaf slices hold the sorted
+   phrases.  Invariant: counter = records written + queue length. *)
+Theorem C11_write_layout : forall fuel q cb dict data dict' data',
+  bfs fuel q cb dict data = Ok (dict', data') ->
+  cb = len_N dict + len_N q ->
+  len_N dict' < U32 -> len_N data' < U32 ->
+  Forall qitem_ok q ->
+  items_repr dict' data' q (len_N dict).
+Proof. exact bfs_repr. Qed.
+Print Assumptions C11_write_layout.
+
+(* The file written for ANY tree within the capacities and ANY metadata
+     - is accepted by the reader of the documented layout: DER envelope, magic,
+       version, and the structural validation of the index;
+     - returns identical metadata;
+     - every lookup - any query, exact or fuzzy, any `first` - returns exactly
+       the tree-level walk: the children matching each query syllable, in
+       syllable order, then the leaves of the reached nodes sorted by the
+       comparator (tlookup, Proofs/TrieRoundtrip.v);
+     - entries() is a permutation of the tree's (syllables, phrase) pairs. *)
+Theorem C11_write_read : forall info t bytes,
+  info_ok info -> root_ok t -> write info t = Ok bytes ->
+  exists tr, open bytes = Ok tr /\ t_info tr = info /\
+    (forall q first strategy, Forall (fun s => s <> 0) q ->
+        lookup tr q first strategy = Ok (tlookup t q first strategy)) /\
+    (exists es, entries tr = Ok es /\ Permutation es (tentries t)).
+Proof. exact write_read. Qed.
+Print Assumptions C11_write_read.
+
+(* the written index alone passes the structural check of the reader *)
+Theorem C11_written_index_validates : forall fuel q cb dict data dict' data',
+  bfs fuel q cb dict data = Ok (dict', data') ->
+  cb = len_N dict + len_N q ->
+  len_N dict' < U32 -> len_N data' < U32 ->
+  Forall qitem_ok q -> Forall qsyl_ok (tl q) ->
+  (0 < len_N dict /\ Forall qsyl_ok q \/ len_N dict = 0 /\ exists syl t, hd_error q = Some (QNode syl t)) ->
+  forall vf, (length dict' - length dict < vf)%nat ->
+  validate_from vf dict' (len_N dict') (len_N dict) cb = true.
+Proof. exact bfs_validates. Qed.
+Print Assumptions C11_written_index_validates.
+
+(* equal input gives byte-identical files: write is a function of (metadata, tree),
+   and the tree a function of the insertion sequence *)
+Theorem C11_write_deterministic : forall info es1 es2,
+  es1 = es2 -> write info (build es1) = write info (build es2).
+Proof. intros info es1 es2 ->. reflexivity. Qed.
+Print Assumptions C11_write_deterministic.
+
+(* leaf order: a stable sort by the comparator of write() *)
+Theorem C11_leaf_sorted_is_permutation : forall ps, Permutation (sort_leaf ps) ps.
+Proof. intros ps. apply ssort_perm. Qed.
+Print Assumptions C11_leaf_sorted_is_permutation.
+
+(* ------------------------------------------------------------------ *)
+(* witnesses just outside the capacity guards                            *)
+
+(* a leaf whose encoding is 65536 bytes: write succeeds, open accepts the
+   file, but the lookup of the inserted key returns nothing (Data Len wrapped
+   to 0) although the builder holds one phrase for it *)
+Theorem C11_leaf_over_capacity_truncates_refuted :
+  big_check = true /\
+  option_map len_N (enc_phrases (sort_leaf [w_big_phrase])) = Some 65536 /\
+  tlookup_len_one = true.
+Proof. exact leaf_over_capacity_truncates. Qed.
+Print Assumptions C11_leaf_over_capacity_truncates_refuted.
+
+(* a leaf mixing one-character and multi-character phrases of unusual byte
+   lengths: the comparator is not transitive, and the written order depends on
+   the insertion order of the same set *)
+Theorem C11_mixed_leaf_comparator_refuted :
+  (ple w_p2 w_p1 = true /\ ple w_p1 w_pm = true /\ ple w_p2 w_pm = false) /\
+  (sort_leaf [w_p2; w_pm; w_p1] <> sort_leaf [w_p1; w_p2; w_pm] /\
+   Permutation [w_p2; w_pm; w_p1] [w_p1; w_p2; w_pm]).
+Proof. split; [exact mixed_leaf_comparator_not_transitive|exact mixed_leaf_order_depends_on_insertion]. Qed.
+Print Assumptions C11_mixed_leaf_comparator_refuted.
+
+(* ------------------------------------------------------------------ *)
+(* non-vacuity: a three-entry dictionary with a shared prefix, a key that is a
+   prefix of another, a re-inserted phrase, a timestamp and multi-byte phrases *)
+Definition ex_es : list entry :=
+  [([11859; 5256], mkPhrase [230; 184; 172; 232; 169; 166] 100 None);
+   ([11859], mkPhrase [230; 184; 172] 5 (Some 9));
+   ([11859; 5256], mkPhrase [231; 173; 150; 232; 169; 166] 200 None);
+   ([11859], mkPhrase [230; 184; 172] 7 None)].
+Definition ex_info : dinfo := mkInfo [110] [] [] [] [118].
+
+Example C11_nonvacuous :
+  exists bytes tr,
+    write ex_info (build ex_es) = Ok bytes /\ open bytes = Ok tr /\ t_info tr = ex_info /\
+    lookup tr [11859; 5256] MAXFIRST STANDARD =
+      Ok [mkPhrase [231; 173; 150; 232; 169; 166] 200 None; mkPhrase [230; 184; 172; 232; 169; 166] 100 None] /\
+    lookup tr [11859] MAXFIRST STANDARD = Ok [mkPhrase [230; 184; 172] 7 None] /\
+    lookup tr [11776; 5120] MAXFIRST FUZZY =
+      Ok [mkPhrase [231; 173; 150; 232; 169; 166] 200 None; mkPhrase [230; 184; 172; 232; 169; 166] 100 None] /\
+    lookup tr [5256] MAXFIRST STANDARD = Ok [].
+Proof.
+  eexists. eexists. split; [vm_compute; reflexivity|]. split; [vm_compute; reflexivity|].
+  repeat split; vm_compute; reflexivity.
+Qed.
+
+(* the hypotheses of C11_write_read hold for it *)
+Example C11_nonvacuous_hypotheses : info_ok ex_info /\ root_ok (build ex_es).
+Proof.
+  split; [repeat split|]. right. vm_compute.
+  repeat (split; try discriminate; try reflexivity; try (repeat constructor); try lia);
+    try (eexists; split; [reflexivity|reflexivity]).
+Qed.
